@@ -127,7 +127,7 @@ CHECKS["C13"] = dict(
          "symbolic values, list append, pack) on other packets of the same / related classes (shared sub-packet class, prototype, default "
          "list, regex-delimited Data); aliasing and purity obligations; a shared-write monitor asserts that NO path of unpack/pack changes "
          "an attribute of a field object shared by the class. Thread schedules are not explored: 'no shared writes' is the sufficient "
-         "condition offered; the one write found (F2) is reported as KNOWN-FINDING.",
+         "condition offered (the one shared write found, F2, was repaired in /repo 1bfe930).",
     design="4/C13", note="Thread interleavings are outside this technique (CrossHair is single-threaded); only the no-shared-write "
     "sufficient condition is decided. ", technique="symbolic execution of operation histories + write monitor on shared field objects, CrossHair/z3")
 CHECKS["C15"] = dict(
@@ -141,8 +141,8 @@ CHECKS["C16"] = dict(
     text="Same environment: the defining process dies after file-system step k (16 steps) with a torn write of c bytes (quick: 17 positions, "
          "thorough: every byte), then a fresh process defines each declaration; and a second process' write side (7 steps) is interleaved "
          "at one (thorough: two) cut point(s) of our 14 operations, cache initially empty or stale. Asserted: the later / concurrent "
-         "definition succeeds and behaves per its own declaration. The 7 failure classes of the non-atomic update (F7) are KNOWN-FINDINGs; "
-         "any other failure class is a violation.",
+         "definition succeeds and behaves per its own declaration (holds since the cache update was made atomic, /repo 6179c10; the 7 "
+         "failure classes of the old in-place update are what the check reported before).",
     design="4/C16", note="Bounded: 1 crash, 2 processes, <=2 scheduling cut points; OS semantics 'a write may be torn at any byte, "
     "operations otherwise atomic'. ", technique="CrossHair path enumeration over crash step / torn length / schedule cut points on real files, replay on the real FS")
 
